@@ -66,6 +66,7 @@ type op struct {
 	Order  []uint64 // clean, check: map iteration order, filled in from the run's storage write log
 	R      uint64
 	Stores []uint64
+	Roles  []int // region: peer roles parallel to Stores (0 voter, 1 learner, 2 incoming voter, 3 demoting voter); nil = all voters
 	F      fault
 	// setenv: the replication settings the store operations look at
 	Loc    []string
@@ -173,20 +174,20 @@ func (o op) coq() string {
 
 // ---------- the world: one real server, reset between cases ----------
 type world struct {
-	x       *srv14.Srv
-	s       *server.Server
-	rc      *cluster.RaftCluster
-	st      *core.Storage
-	kb      *kvx14.Base
-	etcdKV  kv.Base
-	meta    *metapb.Cluster
-	useEtcd bool
-	confVer uint64
-	lastPanic string
-	buryRace  string // how the scripted checkStores/heartbeat interleaving went (histogram only)
+	x                                *srv14.Srv
+	s                                *server.Server
+	rc                               *cluster.RaftCluster
+	st                               *core.Storage
+	kb                               *kvx14.Base
+	etcdKV                           kv.Base
+	meta                             *metapb.Cluster
+	useEtcd                          bool
+	confVer                          uint64
+	lastPanic                        string
+	buryRace                         string // how the scripted checkStores/heartbeat interleaving went (histogram only)
 	prevServed, curServed, curStored map[uint64]rec
-	R *res.Result
-	notes   map[string]bool
+	R                                *res.Result
+	notes                            map[string]bool
 }
 
 func storeGroup(key string) (string, bool) {
@@ -567,8 +568,13 @@ func (w *world) call(o *op, fillOrder bool) string {
 		if o.R == 6 {
 			reg.EndKey = nil
 		}
-		for _, sid := range o.Stores {
-			reg.Peers = append(reg.Peers, &metapb.Peer{Id: o.R*1000 + sid, StoreId: sid})
+		for i, sid := range o.Stores {
+			p := &metapb.Peer{Id: o.R*1000 + sid, StoreId: sid}
+			if i < len(o.Roles) {
+				// whatever its role (a learner, a voter being demoted in a joint state, ...) the peer is a peer the store holds
+				p.Role = metapb.PeerRole(o.Roles[i])
+			}
+			reg.Peers = append(reg.Peers, p)
 		}
 		if err := w.rc.HandleRegionHeartbeat(core.NewRegionInfo(reg, reg.Peers[0])); err != nil {
 			w.notes["region heartbeat refused: "+err.Error()] = true
@@ -705,11 +711,13 @@ func (w *world) runPair(r *rng.R) pairRec { return w.runPairWith(r, nil) }
 // runBuryRace places a region heartbeat that adds a peer on the offline, empty store 2 exactly between checkStores'
 // unlocked read of the region count and buryStore's lock section.  Nothing between those two points can be parked, so
 // the order is fixed through the cluster lock itself:
-//   P  PutStore(1, version 4.0.5) raises the cluster version; its OnStoreVersionChange persists the config while holding
-//      the cluster READ lock -> parked at that write (a reader is inside).
-//   b  region heartbeat (peer on store 2): passes its read section, then c.Lock(): owns the writer slot, waits for P.
-//   a  checkStores: reads "store 2 offline, 0 regions" (no cluster lock), buryStore -> c.Lock(): queued behind b.
-//   release P -> b puts the region and returns -> a's buryStore runs; it is parked at its store write: mid snapshot.
+//
+//	P  PutStore(1, version 4.0.5) raises the cluster version; its OnStoreVersionChange persists the config while holding
+//	   the cluster READ lock -> parked at that write (a reader is inside).
+//	b  region heartbeat (peer on store 2): passes its read section, then c.Lock(): owns the writer slot, waits for P.
+//	a  checkStores: reads "store 2 offline, 0 regions" (no cluster lock), buryStore -> c.Lock(): queued behind b.
+//	release P -> b puts the region and returns -> a's buryStore runs; it is parked at its store write: mid snapshot.
+//
 // P is, for the model, the last operation of the setup (its store write and the in-memory version change are complete).
 func (w *world) runBuryRace() pairRec {
 	var p pairRec
@@ -844,7 +852,7 @@ func (w *world) runPairWith(r *rng.R, sc *pairScript) pairRec {
 		step(op{K: "check"})
 	}
 	p.A = genPairOp(r, []int{0, 1, 2, 3, 4, 5, 6, 7, 9, 9}[r.Intn(10)], sid, "a2") // 9: the store's heartbeat, parked at its persisting write
-	p.B = genPairOp(r, r.Intn(10), sid, "a2") // region and store heartbeats have no (countable) store write to be parked at: only as b
+	p.B = genPairOp(r, r.Intn(10), sid, "a2")                                      // region and store heartbeats have no (countable) store write to be parked at: only as b
 	p.ParkIdx = r.Pick(60, 20, 20)
 	w.kb.Arm(nil)
 	p.Before = w.snapshot("ROk")
@@ -1014,11 +1022,11 @@ func (w *world) runReelect(r *rng.R) restartRec {
 		}
 	}
 	fs := []fchange{
-		{K: "state", ID: 2, State: 1, PD: r.Pct(50)},                  // the other leader took store 2 offline ...
-		{K: "state", ID: 4, State: 2, PD: false},                      // ... buried store 4 ...
-		{K: "labels", ID: 3, Labels: []lab{{"zone", "moved"}}},        // ... relabelled store 3 ...
-		{K: "delete", ID: 5},                                          // ... removed the tombstone record of store 5 ...
-		{K: "new", P: payload{ID: 7, Addr: "a7", Ver: "4.0.0"}},        // ... and registered store 7
+		{K: "state", ID: 2, State: 1, PD: r.Pct(50)},            // the other leader took store 2 offline ...
+		{K: "state", ID: 4, State: 2, PD: false},                // ... buried store 4 ...
+		{K: "labels", ID: 3, Labels: []lab{{"zone", "moved"}}},  // ... relabelled store 3 ...
+		{K: "delete", ID: 5},                                    // ... removed the tombstone record of store 5 ...
+		{K: "new", P: payload{ID: 7, Addr: "a7", Ver: "4.0.0"}}, // ... and registered store 7
 	}
 	if r.Pct(50) {
 		fs[1].PD = true
@@ -1029,17 +1037,18 @@ func (w *world) runReelect(r *rng.R) restartRec {
 	w.reelect(fs)
 	rec.Obs = append(rec.Obs, w.snapshot("ROk"))
 	rec.Steps = append(rec.Steps, hstep{K: "reelect", Foreign: fs})
-	opStep(op{K: "check"})                                                                   // store 3 still holds its peer: it must not be buried
-	opStep(op{K: "heartbeat", ID: 4})                                                        // a tombstone now: refused
-	opStep(op{K: "put", Grpc: true, P: payload{ID: 4, Addr: "a4", Ver: "4.0.0"}})               // refused
+	opStep(op{K: "check"})                                                        // store 3 still holds its peer: it must not be buried
+	opStep(op{K: "heartbeat", ID: 4})                                             // a tombstone now: refused
+	opStep(op{K: "put", Grpc: true, P: payload{ID: 4, Addr: "a4", Ver: "4.0.0"}}) // refused
 	opStep(op{K: "up", ID: 2})
-	opStep(op{K: "put", P: payload{ID: 8, Addr: "a5", Ver: "4.0.0"}})                           // store 5 is gone: its address is free
-	opStep(op{K: "put", P: payload{ID: 9, Addr: "a7", Ver: "4.0.0"}})                           // store 7 exists: clash
+	opStep(op{K: "put", P: payload{ID: 8, Addr: "a5", Ver: "4.0.0"}}) // store 5 is gone: its address is free
+	opStep(op{K: "put", P: payload{ID: 9, Addr: "a7", Ver: "4.0.0"}}) // store 7 exists: clash
 	w.restart()
 	rec.Obs = append(rec.Obs, w.snapshot("ROk"))
 	rec.Steps = append(rec.Steps, hstep{K: "restart"})
 	return rec
 }
+
 type restartRec struct {
 	In    caseIn // boot only
 	Steps []hstep
@@ -1192,6 +1201,104 @@ func addressReuseCases() []caseIn {
 		}
 	}
 	return out
+}
+
+// jointStateCases: the offline store's remaining peer is a voter being demoted in a joint state (or a learner): it still holds the peer and
+// must not be buried
+func jointStateCases() []caseIn {
+	boot := payload{ID: 1, Addr: "a1", Ver: "4.0.0"}
+	put := func(id uint64) op {
+		return op{K: "put", P: payload{ID: id, Addr: fmt.Sprintf("a%d", id), Ver: "4.0.0"}}
+	}
+	var out []caseIn
+	for _, role := range []int{3, 1, 2} {
+		out = append(out, caseIn{CV: "0.0.0", Boot: boot, Ops: []op{put(2), put(3),
+			{K: "region", R: 1, Stores: []uint64{1, 2}},
+			{K: "remove", ID: 2},
+			{K: "check"},
+			{K: "region", R: 1, Stores: []uint64{1, 2, 3}, Roles: []int{0, role, 2}}, // enter joint: store 2 is being demoted, store 3 comes in
+			{K: "check"}, {K: "check"},
+			{K: "region", R: 1, Stores: []uint64{1, 3}}, // leave joint: store 2 is empty now
+			{K: "check"}}})
+	}
+	return out
+}
+
+// ---------- the end of a term with a slow storage ----------
+type stopRec struct {
+	Via          string
+	Materialised bool
+	StopEarly    bool
+	Final        string
+	Log          []string
+}
+
+// runStopScenario: RemoveStore(2) is still in its second write (the store limit in the config key, under the cluster lock) when the member
+// loses the leadership (Stop queues for the lock) and the background tick of the term arrives (checkStores sees store 2 offline and empty,
+// buryStore queues behind Stop).  The config write completes; Stop closes the term and waits for its goroutines; buryStore writes the
+// Tombstone record - slowly.  Stop must not return before that write is done; if it does, another member's term brings the store up and the
+// stale write lands afterwards.
+func (w *world) runStopScenario() stopRec {
+	rec := stopRec{Via: "stop-with-slow-bury"}
+	say := func(f string, a ...interface{}) { rec.Log = append(rec.Log, fmt.Sprintf(f, a...)) }
+	iv := cluster.VerifC14BackgroundJobInterval()
+	old := *iv
+	*iv = 300 * time.Millisecond // the background jobs of THIS term tick for real
+	w.reset("0.0.0", payload{ID: 1, Addr: "a1", Ver: "4.0.0"}, false)
+	*iv = old
+	put := op{K: "put", P: payload{ID: 2, Addr: "a2", Ver: "4.0.0"}}
+	w.exec(&put)
+	w.kb.Arm(nil)
+	cfgPark := w.kb.AddPark("", "config")               // RemoveStore's store-limit write
+	buryPark := w.kb.AddPark(kvx14.PlanKey("2", 1), "") // the 2nd record write of store 2 from here on: the Tombstone of the background bury
+	doneRemove := make(chan error, 1)
+	go func() { doneRemove <- w.rc.RemoveStore(2, false) }()
+	select {
+	case <-cfgPark.Parked:
+	case <-time.After(5 * time.Second):
+		say("RemoveStore did not reach its config write")
+		cfgPark.Release()
+		buryPark.Release()
+		<-doneRemove
+		w.kb.Arm(nil)
+		rec.Final = w.snapshot("ROk")
+		return rec
+	}
+	stopDone := make(chan struct{})
+	go func() { w.rc.Stop(); close(stopDone) }()
+	time.Sleep(700 * time.Millisecond) // at least one tick: buryStore(2) is queued for the cluster lock behind Stop
+	cfgPark.Release()
+	select {
+	case <-buryPark.Parked:
+		rec.Materialised = true
+		say("the background check of the stopped term is inside its Tombstone write of store 2")
+	case <-time.After(3 * time.Second):
+		say("the background check did not reach the Tombstone write (it ran before Stop or not at all)")
+	}
+	if rec.Materialised {
+		select {
+		case <-stopDone:
+			rec.StopEarly = true
+			say("Stop returned while that write was still in flight")
+			// another member's term: it loads store 2 as Offline and brings it up
+			other := core.NewStorage(w.kb.Inner)
+			m := &metapb.Store{Id: 2, Address: "a2", Version: "4.0.0", State: metapb.StoreState_Up}
+			if err := other.SaveStore(m); err != nil {
+				panic(err)
+			}
+			say("the next term (another member) brought store 2 up: stored Up")
+		case <-time.After(3600 * time.Millisecond):
+			say("Stop is still waiting for the term's goroutines after 3.6 s")
+		}
+	}
+	buryPark.Release()
+	<-stopDone
+	<-doneRemove
+	time.Sleep(500 * time.Millisecond) // the stale write lands, the term's last goroutine exits
+	w.kb.Arm(nil)
+	w.restart()
+	rec.Final = w.snapshot("ROk")
+	return rec
 }
 
 func (p pairRec) coq() string {
@@ -1366,7 +1473,14 @@ func gen(r *rng.R, sh *shadow, malformed bool) op {
 				st = append(st, id)
 			}
 		}
-		return op{K: "region", R: uint64(1 + r.Intn(3)), Stores: st}
+		o := op{K: "region", R: uint64(1 + r.Intn(3)), Stores: st}
+		if r.Pct(35) {
+			o.Roles = make([]int, len(st))
+			for i := 1; i < len(st); i++ {
+				o.Roles[i] = r.Intn(4) // learner / incoming voter / demoting voter: a peer the store holds all the same
+			}
+		}
+		return o
 	}
 }
 
@@ -1421,6 +1535,7 @@ func main() {
 	corpus := flag.String("corpus", "", "json file of fixed cases run first")
 	replay := flag.String("replay", "", "json file with cases (or an evidence replay file): run and print observations")
 	npairs := flag.Int("pairs", 80, "number of overlapping-operation cases")
+	stopCase := flag.Bool("stop", true, "the end of a term with a slow storage: Stop while the background check is inside its Tombstone write (about 5 s)")
 	nrestart := flag.Int("restarts", 6, "number of leader-change cases with more store records than one LoadStores page (130 / 230, dense / sparse ids)")
 	nmulti := flag.Int("multi", 60, "number of cases with several failing writes in one operation (restoring writes included)")
 	flag.Parse()
@@ -1472,6 +1587,7 @@ func main() {
 	}
 	if *replay == "" {
 		fixed = append(fixed, addressReuseCases()...)
+		fixed = append(fixed, jointStateCases()...)
 	}
 	var all []caseRec
 	emit := func(c caseRec) {
@@ -1610,6 +1726,26 @@ func main() {
 			panic(err)
 		}
 		R.CaseFiles = append(R.CaseFiles, mf.Files...)
+	}
+	if *replay == "" && *stopCase {
+		for len(raw)%cf.PerFile != 0 {
+			raw = append(raw, nil)
+		}
+		tf := &coqfmt.CaseFile{Dir: *out, Prefix: "C14q", PerFile: cf.PerFile,
+			Header: cf.Header, Type: "tcase",
+			Footer: "Definition M := Eval vm_compute in (@nil nat).\nDefinition D := Eval vm_compute in (@nil nat).\nDefinition V := Eval vm_compute in monitor_t_fails cases.\nPrint M. Print D. Print V.\n"}
+		sr := w.runStopScenario()
+		R.Count(fmt.Sprintf("stop-with-slow-bury:materialised=%v", sr.Materialised))
+		txt := "(" + coqfmt.Bool(sr.Materialised) + ", " + coqfmt.Bool(sr.StopEarly) + ",\n  " + sr.Final + ")"
+		R.Case(txt, true)
+		if err := tf.Add(txt); err != nil {
+			panic(err)
+		}
+		if err := tf.Flush(); err != nil {
+			panic(err)
+		}
+		raw = append(raw, sr)
+		R.CaseFiles = append(R.CaseFiles, tf.Files...)
 	}
 	if *replay == "" && *nrestart > 0 {
 		for len(raw)%cf.PerFile != 0 {
